@@ -107,7 +107,7 @@ def run_batch(R, cases, label, correspond=True):
     st = tc.Stage(R, PROP)
     for case in cases:
         impl = tc.run_impl(case)
-        half = tc.run_impl(case, res_override=case["res"] / 2) if impl["outcome"] == "ok" and case["shape"] != "polyline" else None
+        half = tc.run_impl(case, res_override=case["res"] / 2) if impl["outcome"] == "ok" and case["shape"] != "polyline" and not case.get("nohalf") else None
         nm = len(impl["verts"]) - 1
         cs = const_speed(case)[0] if not case.get("invalid") else False
         R.case(tc.case_repr(case), nontrivial=(impl["outcome"] == "ok" and nm >= 4), validated=correspond)
@@ -154,6 +154,12 @@ def gen(R, n, hi, cap):
         if c is not None and i % 5 == 0 and not c.get("switch"):
             c["warm"] = R.rng.choice([4.0, 8.0, 0.5])   # same request traced before at a coarser / finer resolution
         cases.append(c)
+    # a few very fine traces (path / resolution in the thousands): traced once, not re-traced at res/2
+    for shape in (["circle"] if not R.thorough else ["circle", "arc", "helix", "arc_radius"] * 3):
+        c = tc.gen_case(R.rng, shape, ratio=(3.5, 3.7) if not R.thorough else (3.5, 3.9), max_samples=10**6)
+        if c is not None:
+            c["nohalf"] = True
+            cases.append(c)
     return cases
 
 
@@ -195,7 +201,7 @@ def replay(data):
         print("replay: no case recorded (", data.get("no_longer_checks"), ")")
         return 1
     impl = tc.run_impl(case)
-    half = tc.run_impl(case, res_override=case["res"] / 2) if impl["outcome"] == "ok" and case["shape"] != "polyline" else None
+    half = tc.run_impl(case, res_override=case["res"] / 2) if impl["outcome"] == "ok" and case["shape"] != "polyline" and not case.get("nohalf") else None
     msgs = oracle(case, impl, half)
     R = core.Run(PROP, "quick", 0)
     st = tc.Stage(R, PROP)
